@@ -23,6 +23,20 @@ fn main() {
         Some("parse1") => c11::parse1(&a[2..]),
         Some("c12") => c12::run(&a[2..]),
         Some("describe") => c12::describe_cmd(&a[2..]),
+        Some("apply1") => {
+            // rqmc apply1 <patch file> <source file | -> <reverse 0|1> <fuzz> : one application + rollback, printed
+            let patch = std::fs::read(&a[2]).unwrap();
+            let file = if a[3] == "-" { None } else { Some(std::fs::read(&a[3]).unwrap()) };
+            let r = util::parse_apply(&patch, file.as_deref(), None, a[4] == "1", a[5].parse().unwrap(), true);
+            match r {
+                Ok(o) => {
+                    println!("kind={} ok={} hunks={:?}", o.kind, o.ok, o.hunks);
+                    println!("content={:?} absent={}", String::from_utf8_lossy(&o.after.content), o.after.deleted);
+                    println!("rolled_back={:?}", o.rolled_back.map(|r| r.map(|s| (String::from_utf8_lossy(&s.content).to_string(), s.deleted))));
+                }
+                Err(e) => println!("error={:?}", e),
+            }
+        }
         Some("c20") => c20::run(&a[2..]),
         Some("c04-bfs") => c04::run(&a[2..]),
         Some("c04-pairs") => c03::run("c04", &a[2..]),
